@@ -162,6 +162,9 @@ package transport
 //@   loop 0:
 //@     invariant dc != nil && len(q) >= 12 && respChan != nil
 //@     each[C01] iter_calls(writeQuery) <= 1 && (iter_calls(writeQuery) == 1 ==> iter_arg(writeQuery, 0, 1) == q && iter_arg(writeQuery, 0, 2) == assignedQid)
+// (C07) the read deadline is armed once, when the connection starts waiting for replies: a UDP
+// re-send never pushes it forward, so a silent server is given up after waitingReplyTimeout
+//@     each[C07] iter_calls(SetReadDeadline) == 0 && iter_calls(CompareAndSwap) == 0
 
 // readLoop (C01, C02): every frame read is dispatched by the wire id it carries, to the channel
 // registered under exactly that id; a frame nobody waits for is released; the hand-off does not
